@@ -1,6 +1,6 @@
 (** * C06/C16 runner: Transform model on primitive floats against the f64 build.
     Constructors pass through libm: compared at 1e-12; everything else bit for bit. *)
-From G3 Require Import Run.Harness Model.NumF32 Model.Vec Model.BBox Model.Transform Model.Hit.
+From G3 Require Import Run.Harness Run.FastNum32 Model.NumF32 Model.Vec Model.BBox Model.Transform Model.Hit.
 
 Definition K := float.
 Section WithInstance.
@@ -70,7 +70,8 @@ End WithInstance.
 Module C06.
   Definition run := run_cases (@chk NumF 0x1p-40).
 End C06.
-(** the f32 build: the same model text on the binary32 instance (libm in single precision: 2^-20) *)
+(** the f32 build (streams C06 and C16): the same model text on the binary32 instance (libm in single precision: 2^-20); executed on
+    [NumF32fast], PROVED equal to the Flocq-rounded [NumF32] (Run/FastNum32Proof.v: NumF32fast_eq) and about 1000 times faster *)
 Module C06f32.
-  Definition run := run_cases (@chk NumF32 0x1p-20).
+  Definition run := run_cases (@chk NumF32fast 0x1p-20).
 End C06f32.
